@@ -84,8 +84,8 @@ def render_step(step, hp, rng, tag):
 
 
 def vstr(v):
-    """variant: False/None = the code as it is; a 5-flag string otherwise"""
-    return v if isinstance(v, str) else "00000"
+    """variant: False/None = the code as it is (all five repairs on); a 5-flag string otherwise"""
+    return v if isinstance(v, str) else "11111"
 
 
 def step_case(step, v, t0):
@@ -437,13 +437,20 @@ def run_sequence(ctx, steps, seqid, strace=False, extra_fds=(), present=()):
             cur = table_spec(m["shell"])
         return outs
     # False = the code as it is; the others = the proposed repairs (single flags, then all)
-    VARIANTS = [False, "10000", "01000", "00100", "00010", "00001", "11111"]
+    VARIANTS = [False]          # only the code as it is: a reverted repair must show up as a violation
     variants = {False: model_run(False)}
     work = tempfile.mkdtemp(prefix="fds_")
     out = {"line": line, "findings": [], "bad": [], "accepted": [], "nontrivial": [], "variant": None}
     try:
         setup_work(work, present)
-        rc, recs = run_real(ctx.cicada, line, work, strace=strace, extra_fds=extra_fds)
+        budget = 30 + 4 * len(full)
+        rc, recs = run_real(ctx.cicada, line, work, timeout=budget, strace=strace, extra_fds=extra_fds)
+        if rc == "TIMEOUT":
+            # the machine may just be loaded: once more, alone, with a generous budget, before calling it a hang
+            shutil.rmtree(work, ignore_errors=True)
+            setup_work(work, present)
+            rc, recs = run_real(ctx.cicada, line, work, timeout=6 * budget, strace=strace, extra_fds=extra_fds)
+            out["retried_after_timeout"] = True
         out["rc"] = rc
         died = rc in (141, -13)
         out_txt = open(os.path.join(work, "out.txt"), "rb").read()
@@ -486,8 +493,6 @@ def run_sequence(ctx, steps, seqid, strace=False, extra_fds=(), present=()):
             classes = set()
             for p_ in m["posix"]:
                 classes.update(c for c in p_["cls"] if c != "oos")
-            if single_b and s["capture"]:
-                classes.add("builtin-capture")
             viol = []
             # (C08) every exec'd stage: exactly the shell's initial non-cloexec descriptors
             prev_shell = variants[False][full.index(s) - 1]["shell"] if full.index(s) else parse_table(
@@ -520,6 +525,17 @@ def run_sequence(ctx, steps, seqid, strace=False, extra_fds=(), present=()):
                     viol.append(("C08", "after `%s` the shell passes descriptors %s to children (before: %s)" % (
                         texts[full.index(s)], sorted(recs[ikey]["fds"]), sorted(allowed))))
             out.setdefault("oracle", []).append((k, s, m, sorted(classes), viol))
+        # (C08) the lowest free descriptor after every command is what it was before the first one
+        if not died:
+            first = lowest_free(parse_table(",".join("%d=inh%d" % (f, f) for f in [0, 1, 2] + sorted(extra_fds))))
+            mains = [s for s in full if s["role"] == "main" and not s.get("nosentinel")]
+            for s, val in zip(mains, minfds):
+                if val != first:
+                    for (k, s2, m, classes, viol) in out.get("oracle", []):
+                        if s2 is s:
+                            viol.append(("C08", "after `%s` minfd is %d (was %d): a descriptor leaked in the shell" % (
+                                texts[full.index(s)], val, first)))
+                    break
         # statuses
         for k, s in enumerate(full):
             if s["role"] == "status" and (s["tag"] + ".0") in recs:
@@ -629,8 +645,7 @@ def step_has_builtin_single(step):
 
 
 # ---------------------------------------------------------------- judging one sequence
-CLASS_OF = {"dupleak": "dup-fd-left-open", "capredir": "capture-with-redirect", "capdup": "capture-with-redirect",
-            "builtin-capture": "builtin-capture-pipes"}
+CLASS_OF = {"capdup": "capture-with-redirect", "lookahead": "builtin-lookahead-leak"}
 
 
 def judge(out, prop, known):
